@@ -277,9 +277,23 @@ def run_hx(engine, casefile, extra=(), timeout=3000, binary="hx"):
     return p.stdout.decode("utf-8", "replace").splitlines()
 
 
+def _big_stack():
+    # the extracted functions are structural recursions over byte lists (not tail calls): a line of several thousand bytes
+    # with thousands of samples needs more than the default 8 MiB of stack
+    import resource
+    soft, hard = resource.getrlimit(resource.RLIMIT_STACK)
+    want = 2 << 30
+    if hard != resource.RLIM_INFINITY:
+        want = min(want, hard)
+    try:
+        resource.setrlimit(resource.RLIMIT_STACK, (want, hard))
+    except (ValueError, OSError):
+        pass
+
+
 def run_model(engine, casefile, extra=(), timeout=3000):
     cmd = [f"{ROOT}/ocaml/runner", engine, casefile, *extra]
-    p = subprocess.run(cmd, stdout=subprocess.PIPE, stderr=subprocess.PIPE, timeout=timeout)
+    p = subprocess.run(cmd, stdout=subprocess.PIPE, stderr=subprocess.PIPE, timeout=timeout, preexec_fn=_big_stack)
     if p.returncode != 0:
         raise RuntimeError(f"runner {engine} failed rc={p.returncode}: {p.stderr.decode()[-3000:]}")
     return p.stdout.decode("utf-8", "replace").splitlines()
